@@ -113,6 +113,9 @@ type Engine struct {
 	pcNotes  []string
 
 	fatalSeen     []string
+	raceFound     []string
+	raceKeys      []string
+	curFrame      *frame
 	lastPanicFn   string
 	depth         int
 	pendingVal    int64
@@ -821,6 +824,7 @@ func (e *Engine) runPath(prefix []Decision, run func()) {
 	e.pathObl = 0
 	e.depth = 0
 	e.fatalSeen = e.fatalSeen[:0]
+	e.raceFound, e.raceKeys = nil, nil
 	e.lastPanicFn = ""
 	e.observe = e.observe[:0]
 	e.Res.Paths++
@@ -831,6 +835,12 @@ func (e *Engine) runPath(prefix []Decision, run func()) {
 		func() {
 			// solver interaction below may itself fail; never let it escape
 			defer func() { recover() }()
+			for i, rmsg := range e.raceFound {
+				if _, isInc := r.(inconclusive); !isInc {
+					e.Res.Obligations++
+					e.obligation("race@"+e.raceKeys[i], "race", rmsg, "true")
+				}
+			}
 			if len(e.fatalSeen) > 0 {
 				if _, isInc := r.(inconclusive); !isInc {
 					e.pathPanicked("fatal-error", "csvq recovered a panic and built a Fatal Error: "+e.fatalSeen[0])
